@@ -60,7 +60,7 @@ def cases(tier, seed):
             chosen.append(rng.choice([s for s in g if s[1][2] == 4]))
             chosen.append(rng.choice([s for s in g if s[1][0] == 4 and s[1][1] != 4]))
             chosen.append(rng.choice([s for s in g if s[1][0] != 4 and s[1][2] != 4]))
-        chosen += rng.sample(grid, 16)
+        chosen = chosen * 2 + rng.sample(grid, 40)
     else:
         chosen = grid * 2
     rng.shuffle(chosen)
